@@ -738,7 +738,7 @@ Proof.
   - apply do_push_live; auto.
   - apply do_poll_live; auto.
   - split; auto. apply gd_do_act.
-  - split; auto. destruct (observe k); reflexivity.
+  - split; auto. destruct (observe P k); reflexivity.
   - auto.
   - pose proof (do_drop_live k w) as Hd. destruct (do_drop k w). destruct Hd; auto.
   - split; auto. unfold cleanup. apply gd_cleanup_from.
